@@ -15,6 +15,8 @@ from ..facts import AnchorMissing
 from .common import (PA, where, short, transitive_control_deps, control_dependence_no_errors, only_via_edge,
                      all_places, ok_blocks)
 
+CRATES = ["parol.lib", "parol_runtime.lib"]
+
 META = {
     "explanation": "Decides the isolation clause of C12 structurally: every path of augment_grammar that returns "
                    "the input grammar unchanged is control dependent on a test that inspects the right-hand sides "
